@@ -561,6 +561,11 @@ class Folder:
                 (isinstance(args[0], (int, float)) or (isinstance(args[0], sp.Basic) and args[0].is_number)):
             import math as _m
             return int(_m.ceil(args[0])) if fn.endswith("ceil") else int(_m.floor(args[0]))
+        if fn in ("math.log2", "np.log2", "math.log", "math.log10") and len(args) == 1 and isinstance(args[0], (int, float)) and not isinstance(args[0], bool) and args[0] > 0:
+            import math as _m
+            return getattr(_m, fn.split(".")[1])(args[0])
+        if fn == "round" and len(args) in (1, 2) and all(isinstance(a, (int, float)) and not isinstance(a, bool) for a in args):
+            return round(*args)
         if fn in ("math.remainder", "math.fmod") and len(args) == 2 and all(isinstance(a, (int, float)) for a in args):
             import math as _m
             return getattr(_m, fn.split(".")[1])(*args)
